@@ -322,6 +322,8 @@ def gen_link(rng, P, s, li):
         active |= rng.getrandbits(28)
         s.features.add("ihw:superset")
     cdw_user = rng.getrandbits(48)
+    cdw_idx = rng.randrange(1 << 24)      # the first CDW of a link has no predecessor: any index
+    cdw_seen = False
     bc_next = 0
     n_hbf = P.hbfs
     for h in range(n_hbf):
@@ -410,7 +412,17 @@ def gen_link(rng, P, s, li):
             words.append(["TDH", its.tdh(tr["tt"], tr["internal"], 0, 0, tr["bc"], orbit)])
             cdw_ok = first_in_page and not any(k == "DATA" for k, _ in words)
             if cdw_ok and rng.random() < P.p_cdw:
-                words.append(["CDW", its.cdw(cdw_user, rng.randrange(1 << 24))])
+                # calibration scan: the index counts under a constant user field and restarts at 0 when the user field changes
+                if cdw_seen and rng.random() < 0.4:
+                    cdw_user = (cdw_user + 1 + rng.getrandbits(20)) & ((1 << 48) - 1)
+                    cdw_idx = 0
+                    s.features.add("cdw:scan_step")
+                elif cdw_seen:
+                    cdw_idx = (cdw_idx + 1) & 0xFFFFFF if rng.random() < 0.7 else rng.randrange(1 << 24)
+                    if cdw_idx:
+                        s.features.add("cdw:index_nonzero")
+                words.append(["CDW", its.cdw(cdw_user, cdw_idx)])
+                cdw_seen = True
                 s.features.add("cdw")
             flags = []
             frame_bc = rng.choice([0, 0, 255, 1, rng.randrange(256), rng.randrange(256), rng.randrange(256)])   # boundary bunch counters often
